@@ -9,6 +9,7 @@ import (
 	"encoding/json"
 	"fmt"
 	"os"
+	"strings"
 
 	"go.sia.tech/core/types"
 	"verif/harness/internal/chaingen"
@@ -21,8 +22,44 @@ func main() { hx.Main("C19", run) }
 
 type failure struct{ kind, detail string }
 
-func runCase(t *chaingen.Tree, plan []mgrsim.Op) ([]mgrsim.Obs, *failure, map[string]int) {
+// drive: how the pruned node is driven besides the plan (mgrsim/ext.go): modes; "probe" = after every call
+// the requests that may need bodies are made around the pruning boundary; "blind:<api>" = the plan is run
+// again without any read between the calls and <api> is the first read.
+type drive struct {
+	Modes []string
+	Probe bool
+	First string
+}
+
+func driveOf(cs mgrsim.Case) drive {
+	d := drive{}
+	for _, m := range cs.Modes {
+		switch {
+		case m == "probe":
+			d.Probe = true
+		case strings.HasPrefix(m, "blind:"):
+			d.First = strings.TrimPrefix(m, "blind:")
+		default:
+			d.Modes = append(d.Modes, m)
+		}
+	}
+	return d
+}
+
+func (d drive) has(m string) bool {
+	for _, x := range d.Modes {
+		if x == m {
+			return true
+		}
+	}
+	return false
+}
+
+func runCase(t *chaingen.Tree, d drive, plan []mgrsim.Op) ([]mgrsim.Obs, *failure, map[string]int) {
 	s := mgrsim.NewSim(t, nil)
+	if len(d.Modes) > 0 {
+		s.Enable(d.Modes...)
+	}
 	twin := mgrsim.NewSim(t, nil)
 	stats := map[string]int{}
 	var prev, tprev mgrsim.Obs
@@ -36,16 +73,64 @@ func runCase(t *chaingen.Tree, plan []mgrsim.Op) ([]mgrsim.Obs, *failure, map[st
 		}
 	}
 	diverged := false
+	stopped := false
+	var lastPrune uint64
+	havePrune := false
 	for _, op := range plan {
 		o := s.Do(op)
+		if o.Hung {
+			report("c19-call-hangs", "%s (modes %v: a reorg listener prunes from inside the notification)", o.ErrText, d.Modes)
+			stopped = true
+			break
+		}
 		obs = append(obs, o)
 		if o.Panic {
 			report("c19-panic", "%v panicked: %s", op, o.ErrText)
+			stopped = true
 			break
 		}
+		for _, id := range o.Polled {
+			if id != prev.Best[0] && id != o.Best[0] {
+				report("c19-intermediate-tip-visible", "while %v ran (tip %d before, %d after) a concurrent reader was served tip %d", op, prev.Best[0], o.Best[0], id)
+			}
+		}
+		for _, f := range o.ListenerFaults {
+			report("c19-reader-sees-inconsistent-state", "during %v: %s", op, f)
+		}
 		switch op.Kind {
+		case "reopen":
+			stats["reopens"]++
+			if why, same := mgrsim.SameState(prev, o); !same || o.Err {
+				report("c19-reopen-changed-state", "%v (err=%v %s) changed what the pruned node serves: %s", op, o.Err, o.ErrText, why)
+			}
 		case "prune":
 			stats["prunes"]++
+			tipH := uint64(len(prev.Best) - 1)
+			switch {
+			case op.Height == 0:
+				stats["prune-height:0"]++
+			case op.Height == ^uint64(0):
+				stats["prune-height:max-uint64"]++
+			case op.Height > tipH+1:
+				stats["prune-height:beyond-tip"]++
+			case op.Height == tipH+1:
+				stats["prune-height:tip+1"]++
+			case op.Height == tipH:
+				stats["prune-height:tip"]++
+			default:
+				stats["prune-height:mid-chain"]++
+			}
+			if havePrune {
+				switch {
+				case op.Height == lastPrune:
+					stats["prune-after-prune:same-height"]++
+				case op.Height < lastPrune:
+					stats["prune-after-prune:lower"]++
+				default:
+					stats["prune-after-prune:higher"]++
+				}
+			}
+			lastPrune, havePrune = op.Height, true
 			// best chain, tip state, states and headers unchanged; exactly the bodies below the height are gone
 			if fmt.Sprint(o.Best) != fmt.Sprint(prev.Best) || !bytes.Equal(o.TipState, prev.TipState) {
 				report("c19-prune-changed-chain", "%v changed the best chain or tip state", op)
@@ -58,10 +143,11 @@ func runCase(t *chaingen.Tree, plan []mgrsim.Op) ([]mgrsim.Obs, *failure, map[st
 			}
 			// expected: walking down from height-1, bodies are removed until the first already missing one
 			expectGone := map[int]bool{}
-			for hh := int64(op.Height) - 1; hh >= 0; hh-- {
-				if hh >= int64(len(prev.Best)) {
-					continue // above the tip there is nothing to prune; every best-chain body below the height goes
-				}
+			top := op.Height // above the tip there is nothing to prune; every best-chain body below the height goes
+			if top > uint64(len(prev.Best)) {
+				top = uint64(len(prev.Best))
+			}
+			for hh := int64(top) - 1; hh >= 0; hh-- {
 				id := prev.Best[len(prev.Best)-1-int(hh)]
 				if !prev.Known[id].Body {
 					break
@@ -111,12 +197,66 @@ func runCase(t *chaingen.Tree, plan []mgrsim.Op) ([]mgrsim.Obs, *failure, map[st
 			}
 		default:
 			to := twin.Do(op)
+			if len(o.ListenerPruned) > 0 {
+				// the listener pruned below h from inside the notification: on the new best chain every body below
+				// h is gone (bodies are missing from the bottom only), every body from h up is there, and nothing
+				// off the best chain lost its body
+				h := o.ListenerPruned[len(o.ListenerPruned)-1]
+				stats["prunes-from-inside-the-reorg-listener"]++
+				onBest, wasBest := map[int]bool{}, map[int]bool{}
+				for _, id := range prev.Best {
+					wasBest[id] = true
+				}
+				for i, id := range o.Best {
+					onBest[id] = true
+					hh := uint64(len(o.Best) - 1 - i)
+					if hh < h && o.Known[id].Body {
+						report("c19-prune-kept-body", "%v: the reorg listener pruned below %d from inside the notification, yet best-chain block %d at height %d still has its body", op, h, id, hh)
+					}
+					// (a block that was on the best chain without a body before the call was pruned earlier)
+					if hh >= h && !o.Known[id].Body && (prev.Known[id].Body || !wasBest[id]) {
+						report("c19-prune-removed-wrong-body", "%v: the reorg listener pruned below %d from inside the notification and best-chain block %d at height %d lost its body", op, h, id, hh)
+					}
+				}
+				for i, k := range o.Known {
+					if !onBest[k.ID] && prev.Known[i].Body && !k.Body {
+						report("c19-prune-removed-wrong-body", "%v: the reorg listener pruned below %d and block %d, which is not on the best chain, lost its body", op, h, k.ID)
+					}
+				}
+			}
 			if diverged {
 				break
 			}
 			same := to.Err == o.Err && fmt.Sprint(to.Best) == fmt.Sprint(o.Best) && bytes.Equal(to.TipState, o.TipState) && to.Notified == o.Notified
 			if same {
 				stats["calls-equal-to-twin"]++
+				// where the fork point of an adopted reorg lies relative to the reported minimum reorg index
+				if len(prev.Best) > 0 && fmt.Sprint(o.Best) != fmt.Sprint(prev.Best) && prev.MinReorg >= 0 {
+					nb := map[int]bool{}
+					for _, id := range o.Best {
+						nb[id] = true
+					}
+					for _, id := range prev.Best {
+						if nb[id] {
+							if id != prev.Best[0] {
+								fh, mh := s.T.Nodes[id].Height, s.T.Nodes[prev.MinReorg].Height
+								switch {
+								case mh == 0: // nothing was pruned yet
+								case fh == mh:
+									stats["reorgs-adopted/fork-point-exactly-at-min-reorg-index"]++
+								case fh == mh+1:
+									stats["reorgs-adopted/fork-point-one-above-min-reorg-index"]++
+								default:
+									stats["reorgs-adopted/fork-point-further-above-min-reorg-index"]++
+								}
+								if mh > 0 {
+									stats["reorgs-adopted-on-a-pruned-node"]++
+								}
+							}
+							break
+						}
+					}
+				}
 				break
 			}
 			// legitimate only if the twin's reorg reverted a block whose body the pruned node no longer has
@@ -143,6 +283,20 @@ func runCase(t *chaingen.Tree, plan []mgrsim.Op) ([]mgrsim.Obs, *failure, map[st
 					report("c19-reorg-at-or-above-min-reorg-index-refused", "%v: fork point is block %d (height %d), at or above the reported MinReorgIndex %d (height %d), yet the pruned node refused (%s) what the unpruned twin adopted", op, fork, s.T.Nodes[fork].Height, prev.MinReorg, s.T.Nodes[prev.MinReorg].Height, o.ErrText)
 				}
 				stats["reorgs-refused-below-boundary"]++
+				if fork >= 0 && prev.MinReorg >= 0 && s.T.Nodes[fork].Height+1 == s.T.Nodes[prev.MinReorg].Height {
+					stats["reorgs-refused-below-boundary/fork-point-one-below-min-reorg-index"]++
+				}
+				// the refusal comes after the reverts that were still possible: those had to be rolled back
+				rev := 0
+				for _, id := range prev.Best {
+					if newBest[id] || !prev.Known[id].Body {
+						break
+					}
+					rev++
+				}
+				if rev > 0 {
+					stats["reorgs-refused-below-boundary/after-reverting>=1-block"]++
+				}
 				diverged = true
 				break
 			}
@@ -160,15 +314,140 @@ func runCase(t *chaingen.Tree, plan []mgrsim.Op) ([]mgrsim.Obs, *failure, map[st
 				}
 			}
 		}
+		if d.Probe {
+			probe(s, o, stats, report)
+		}
 		prev = o
 	}
-	_ = types.BlockID{}
+	if fail == nil && !stopped && d.First != "" {
+		// class 1: the same plan on a fresh node with no read between the calls (in particular none between a
+		// prune and the next call); the first read afterwards is d.First
+		stats["unobserved-re-runs"]++
+		firstObserved := mgrsim.ReadAPI(s, d.First)
+		firstBlind, blind, bad := mgrsim.RunBlind(t, plan, d.Modes, d.First)
+		if bad != "" {
+			report("c19-unobserved-run-fails", "the plan run without any read between the calls: %s (with an observation after every call it ran through)", bad)
+		} else if firstBlind != firstObserved {
+			report("c19-first-read-after-unobserved-run-differs", "the plan run without any read between the calls, then %s as the very first read: it returns %.300q; on the node that was observed after every call the same read returns %.300q", d.First, firstBlind, firstObserved)
+		} else if why, same := mgrsim.SameState(prev, blind); !same {
+			report("c19-unobserved-run-differs", "the plan run without any read between the calls ends in another state than with an observation after every call: %s", why)
+		}
+	}
 	return obs, fail, stats
 }
 
-func shrink(t *chaingen.Tree, plan []mgrsim.Op, kind string) []mgrsim.Op {
+// probe makes, around the pruning boundary, the requests that may need block bodies (UpdatesSince,
+// BlocksForHistory) and one that never does (Headers). Ground truth from the observation: a request
+// needs a pruned body iff one of the best-chain blocks it has to deliver has none. Such a request must
+// fail with an error (never panic, never deliver something else); every other request must be served
+// with exactly those blocks.
+func probe(s *mgrsim.Sim, o mgrsim.Obs, stats map[string]int, report func(kind, format string, a ...any)) {
+	if o.MinReorg < 0 || len(o.Best) < 2 {
+		return
+	}
+	tip := len(o.Best) - 1
+	at := func(h int) *chaingen.Node { return s.T.Nodes[o.Best[tip-h]] }
+	mr := int(s.T.Nodes[o.MinReorg].Height)
+	for h := mr - 2; h <= mr+1; h++ {
+		if h < 0 || h >= tip {
+			continue
+		}
+		n := 2
+		if tip-h < n {
+			n = tip - h
+		}
+		needsPruned := false
+		for j := 1; j <= n; j++ {
+			if !o.Known[o.Best[tip-(h+j)]].Body {
+				needsPruned = true
+			}
+		}
+		idx := types.ChainIndex{Height: uint64(h), ID: at(h).ID}
+		type answer struct {
+			name string
+			err  error
+			ids  []types.BlockID
+		}
+		call := func(name string, f func() (error, []types.BlockID)) (a answer, panicked bool) {
+			defer func() {
+				if r := recover(); r != nil {
+					report("c19-request-panics", "%s from best-chain height %d (MinReorgIndex at height %d, needs a pruned body: %v) panicked: %v", name, h, mr, needsPruned, r)
+					panicked = true
+				}
+			}()
+			err, ids := f()
+			return answer{name, err, ids}, false
+		}
+		var answers []answer
+		if a, p := call("UpdatesSince", func() (error, []types.BlockID) {
+			rus, aus, err := s.CM.UpdatesSince(idx, n)
+			var ids []types.BlockID
+			for _, au := range aus {
+				ids = append(ids, au.Block.ID())
+			}
+			if err == nil && len(rus) != 0 {
+				ids = append(ids, types.BlockID{}) // a revert on the best chain: a wrong answer
+			}
+			return err, ids
+		}); !p {
+			answers = append(answers, a)
+		}
+		if a, p := call("BlocksForHistory", func() (error, []types.BlockID) {
+			bs, _, err := s.CM.BlocksForHistory([]types.BlockID{idx.ID}, uint64(n))
+			var ids []types.BlockID
+			for _, b := range bs {
+				ids = append(ids, b.ID())
+			}
+			return err, ids
+		}); !p {
+			answers = append(answers, a)
+		}
+		for _, a := range answers {
+			switch {
+			case needsPruned && a.err == nil:
+				report("c19-request-needing-pruned-body-succeeded", "%s from best-chain height %d for %d blocks returned no error although a block it has to deliver has no body (MinReorgIndex at height %d); it delivered %d blocks", a.name, h, n, mr, len(a.ids))
+			case needsPruned:
+				stats["requests-needing-a-pruned-body-refused"]++
+			case a.err != nil:
+				report("c19-request-refused-although-bodies-present", "%s from best-chain height %d for %d blocks failed (%v) although every block it has to deliver has its body", a.name, h, n, a.err)
+			default:
+				ok := len(a.ids) == n
+				for j := 0; ok && j < n; j++ {
+					ok = a.ids[j] == at(h+1+j).ID
+				}
+				if !ok {
+					report("c19-request-wrong-answer", "%s from best-chain height %d for %d blocks did not deliver the best-chain blocks above it", a.name, h, n)
+				}
+				stats["requests-at-or-above-the-boundary-served"]++
+			}
+		}
+		// header serving never needs a body
+		if a, p := call("Headers", func() (error, []types.BlockID) {
+			hs, _, err := s.CM.Headers(idx, uint64(n))
+			var ids []types.BlockID
+			for _, bh := range hs {
+				ids = append(ids, bh.ID())
+			}
+			return err, ids
+		}); !p {
+			ok := a.err == nil && len(a.ids) == n
+			for j := 0; ok && j < n; j++ {
+				ok = a.ids[j] == at(h+1+j).ID
+			}
+			if !ok {
+				report("c19-headers-broken", "Headers from best-chain height %d for %d headers (bodies pruned below height %d): err %v, %d headers", h, n, mr, a.err, len(a.ids))
+			}
+			stats["header-requests-across-the-boundary-served"]++
+		}
+	}
+}
+
+func shrink(t *chaingen.Tree, d drive, plan []mgrsim.Op, kind string) []mgrsim.Op {
+	if kind == "c19-call-hangs" {
+		return plan // every attempt costs a hang timeout
+	}
 	fails := func(p []mgrsim.Op) bool {
-		_, f, _ := runCase(t, p)
+		_, f, _ := runCase(t, d, p)
 		return f != nil && f.kind == kind
 	}
 	for changed := true; changed; {
@@ -182,6 +461,23 @@ func shrink(t *chaingen.Tree, plan []mgrsim.Op, kind string) []mgrsim.Op {
 		}
 	}
 	return plan
+}
+
+// hangs counts histories in which a call did not return; every further one would cost a hang timeout, so
+// after the first the listener modes are dropped for the rest of the run (the failure is already reported).
+var hangs int
+
+func afterHang(modes []string) []string {
+	if hangs == 0 {
+		return modes
+	}
+	var out []string
+	for _, m := range modes {
+		if !strings.HasPrefix(m, "listener-") {
+			out = append(out, m)
+		}
+	}
+	return out
 }
 
 // safeTree regenerates the case's tree; the generator builds blocks with real chain.Manager
@@ -203,7 +499,19 @@ func run(c *hx.Ctx) {
 	var cases []string
 	doCase := func(cs mgrsim.Case) {
 		t := cs.Tree()
-		obs, f, st := runCase(t, cs.Plan)
+		cs.Modes = afterHang(cs.Modes)
+		d := driveOf(cs)
+		obs, f, st := runCase(t, d, cs.Plan)
+		if f != nil && f.kind == "c19-call-hangs" {
+			hangs++
+		}
+		for _, m := range cs.Modes {
+			if strings.HasPrefix(m, "blind:") {
+				res.Count("unobserved-re-run/first-read=" + strings.TrimPrefix(m, "blind:"))
+			} else {
+				res.Count("mode:" + m)
+			}
+		}
 		js, _ := json.Marshal(cs)
 		res.Eval(string(js), st["bodies-pruned"] > 0 && (st["calls-equal-to-twin"] > 0 || st["reorgs-refused-below-boundary"] > 0))
 		for k, v := range st {
@@ -211,8 +519,11 @@ func run(c *hx.Ctx) {
 		}
 		res.CountN("calls", len(cs.Plan))
 		if f != nil {
-			small := shrink(t, cs.Plan, f.kind)
-			_, f2, _ := runCase(t, small)
+			small := shrink(t, d, cs.Plan, f.kind)
+			_, f2, _ := runCase(t, d, small)
+			if f.kind == "c19-call-hangs" {
+				f2 = f
+			}
 			if f2 == nil {
 				f2, small = f, cs.Plan
 			}
@@ -220,8 +531,11 @@ func run(c *hx.Ctx) {
 			scs.Plan = small
 			res.Fail(f2.kind, f2.detail, map[string]any{"case": scs})
 		}
-		if len(obs) == len(cs.Plan) && !mgrsim.HasTwin(t, cs.Plan) {
-			cases = append(cases, mgrsim.CoqCase(t, cs.Plan, obs))
+		if len(obs) == len(cs.Plan) && !mgrsim.HasTwin(t, cs.Plan) && !d.has("listener-prune") {
+			// a reopen is a no-op of the model; prunes from inside the listener are not operations of the plan
+			// (those histories are judged by the monitors and the twin only)
+			mp, mo := mgrsim.ModelHistory(cs.Plan, obs)
+			cases = append(cases, mgrsim.CoqCase(t, mp, mo))
 		}
 		if len(res.Samples) < 2 {
 			var ops []string
@@ -283,6 +597,35 @@ func run(c *hx.Ctx) {
 					p2 = append(p2, p2[len(p2)-1]) // repeated prune
 				}
 			}
+		}
+		// generalisation pass, by case number so that every regime meets every dimension (i%6 is the regime)
+		k := i / 6
+		switch k % 5 {
+		case 1:
+			cs.Modes = append(cs.Modes, "listener-prune")
+		case 2:
+			cs.Modes = append(cs.Modes, "poll")
+		case 3:
+			cs.Modes = append(cs.Modes, "scribble", "listener-reads")
+		}
+		if k%3 == 0 {
+			cs.Modes = append(cs.Modes, "probe")
+		}
+		if i%2 == 1 {
+			cs.Modes = append(cs.Modes, "blind:"+mgrsim.ReadAPIs[(i/2)%len(mgrsim.ReadAPIs)])
+		}
+		insert := func(op mgrsim.Op) {
+			at := 2 + pr.Intn(len(p2)-1)
+			p2 = append(p2[:at:at], append([]mgrsim.Op{op}, p2[at:]...)...)
+		}
+		if k%3 == 1 {
+			insert(mgrsim.Op{Kind: "reopen"})
+			insert(mgrsim.Op{Kind: "reopen"})
+		}
+		if k%4 == 2 {
+			insert(mgrsim.Op{Kind: "prune", Height: ^uint64(0)})
+			insert(mgrsim.Op{Kind: "prune", Height: 0})
+			insert(mgrsim.Op{Kind: "prune", Height: 1})
 		}
 		cs.Plan = p2
 		doCase(cs)
